@@ -299,7 +299,7 @@ func (c *Config) expandEnvVars() {
 type Info struct {
 	Overridables    `yaml:",inline" json:",inline"`
 	Name            string    `yaml:"name" json:"name" jsonschema:"title=package name"`
-	Arch            string    `yaml:"arch" json:"arch" jsonschema:"title=target architecture,example=amd64"`
+	Arch            string    `yaml:"arch" json:"arch" jsonschema:"title=target architecture,example=amd64,oneof_type=string;number"`
 	Platform        string    `yaml:"platform,omitempty" json:"platform,omitempty" jsonschema:"title=target platform,example=linux,default=linux"`
 	Epoch           string    `yaml:"epoch,omitempty" json:"epoch,omitempty" jsonschema:"title=version epoch,example=2,default=extracted from version,oneof_type=string;number"`
 	Version         string    `yaml:"version" json:"version" jsonschema:"title=version,example=v1.0.2,example=2.0.1,oneof_type=string;number"`
@@ -411,7 +411,7 @@ type RPMScripts struct {
 type PackageSignature struct {
 	// PGP secret key, can be ASCII-armored
 	KeyFile       string  `yaml:"key_file,omitempty" json:"key_file,omitempty" jsonschema:"title=key file,example=key.gpg"`
-	KeyID         *string `yaml:"key_id,omitempty" json:"key_id,omitempty" jsonschema:"title=key id,example=bc8acdd415bd80b3"`
+	KeyID         *string `yaml:"key_id,omitempty" json:"key_id,omitempty" jsonschema:"title=key id,example=bc8acdd415bd80b3,oneof_type=string;number"`
 	KeyPassphrase string  `yaml:"-" json:"-"` // populated from environment variable
 	// SignFn, if set, will be called with the package-specific data to sign.
 	// For deb and rpm packages, data is the full package content.
@@ -485,7 +485,7 @@ type DebScripts struct {
 
 // IPK is custom configs that are only available on deb packages.
 type IPK struct {
-	ABIVersion    string            `yaml:"abi_version,omitempty" json:"abi_version,omitempty" jsonschema:"title=abi version"`
+	ABIVersion    string            `yaml:"abi_version,omitempty" json:"abi_version,omitempty" jsonschema:"title=abi version,oneof_type=string;number"`
 	Alternatives  []IPKAlternative  `yaml:"alternatives,omitempty" json:"alternatives,omitempty" jsonschema:"title=alternatives"`
 	Arch          string            `yaml:"arch,omitempty" json:"arch,omitempty" jsonschema:"title=architecture in deb nomenclature"`
 	AutoInstalled bool              `yaml:"auto_installed,omitempty" json:"auto_installed,omitempty" jsonschema:"title=auto installed,default=false"`
